@@ -199,12 +199,14 @@ func run(prop, tier, repo, verif, rulesF string, noEv, dumpKeys, verbose bool) (
 				obl = kept
 			}
 			n, okc, viol, undec, _ := summarise(obl)
-			ruleNotes = append(ruleNotes, fmt.Sprintf("%s[%d obligations: %d discharged, %d violated, %d undecided; floor %d]", spec, n, okc, viol, undec, r.Floor))
 			if scope != "" && n == 0 {
-				floorFail++
-				all = append(all, Ob{Rule: rn, Key: rn + "/scope " + scope, Pos: "-", Status: UNDECIDED,
-					Msg: "the scoped rule matched no construct: the functions this property's clause is about no longer resolve"})
+				// the functions the scope names no longer exist (renamed / restructured): judge the
+				// property on the whole rule instead of passing vacuously or raising a false alarm
+				obl = cache[rn]
+				n, okc, viol, undec, _ = summarise(obl)
+				spec += " (scope matched nothing: unscoped)"
 			}
+			ruleNotes = append(ruleNotes, fmt.Sprintf("%s[%d obligations: %d discharged, %d violated, %d undecided; floor %d]", spec, n, okc, viol, undec, r.Floor))
 			if nAll < r.Floor {
 				floorFail++
 				all = append(all, Ob{Rule: rn, Key: rn + "/floor", Pos: "-", Status: UNDECIDED,
